@@ -14,6 +14,11 @@ def gen(rng, L=10):
     ids = Ids()
     cfg = {}
     used = []
+    # in a quarter of the cases every context is tied to gamepad 0, which is unplugged at some point (for good: a gamepad
+    # that connects later is another entity)
+    tied = rng.random() < .25
+    gone_from = rng.randrange(1, L) if tied else L + 1
+    gone_to = L + 1
     holders = {}
     for c in menu:
         acts = []
@@ -30,7 +35,7 @@ def gen(rng, L=10):
                 inp = rng.choice([key(rng.randrange(3)), key(rng.randrange(3)), mbutton(0), key(0, CONTROL), pbutton(0), motion()])
                 binds.append(bind(ids, inp, [rnd_mod(rng, L) for _ in range(rng.randint(0, 3))], [rnd_cond(rng, L) for _ in range(rng.randint(0, 3))]))
             acts.append('(mkAction %d %s %s %s)' % (a, amx, acx, lst(binds)))
-        s = spec(acts)
+        s = spec(acts, pad=0 if tied else None)
         hs = [0, 1] if ctx_shared(c) and rng.random() < .5 else [rng.choice([0, 1])]
         holders[c] = hs
         for e in hs:
@@ -39,11 +44,11 @@ def gen(rng, L=10):
     keys = set()
     spawned = set()
     late = rng.random() < 0.5         # create some contexts while inputs are held
-    def pressed():
+    def pressed(i=0):
         nonlocal keys
         for k in [0, 1, 2, 102]:
             if rng.random() < 0.35: keys ^= {k}
-        return raw(keys, [0] if rng.random() < .3 else [], (rng.choice([F(0), F(1)]), F(0)), (0, 0), [pad(0, [0] if rng.random() < .4 else [])], [])
+        return raw(keys, [0] if rng.random() < .3 else [], (rng.choice([F(0), F(1)]), F(0)), (0, 0), [] if gone_from <= i < gone_to else [pad(0, [0] if rng.random() < .4 else [])], [])
     first = True
     for c in menu:
         for e in holders[c]:
@@ -53,7 +58,7 @@ def gen(rng, L=10):
             spawned.add(e)
             first = False
     for i in range(L):
-        steps.append(frame(pressed()))
+        steps.append(frame(pressed(i)))
         if late and i == 2:
             for c in menu:
                 for e in holders[c]:
@@ -74,7 +79,7 @@ STAGES = [dict(name='invocations', mode='app', coq='Check.C12c', cases=cases, no
                exhaustive={'thorough': False, 'quick': False},
                rule='fully scripted configurations: 1-3 context types, 1-3 actions each, 0-3 inputs, 0-3 modifiers and 0-3 conditions at each level, every one an instrumented '
                     'scripted condition/modifier with random results (failing blockers, all-None rows, dimension-changing values), contested consuming inputs, inactive inputs, '
-                    'contexts created while inputs are held, rebuilds; 6-10 frames; non-trivial = both conditions and modifiers invoked; distinct = distinct scenario text')]
+                    'contexts created while inputs are held, rebuilds; in a quarter of the cases every context is tied to a gamepad that gets unplugged; 6-10 frames; non-trivial = both conditions and modifiers invoked; distinct = distinct scenario text')]
 CLAUSES = {1: 'the invocation log of a frame is not: per evaluated instance in priority order, per action in binding order, per un-suppressed input its modifiers then its conditions, then action-level modifiers, then action-level conditions - each exactly once',
            8: 'panic', 9: 'malformed trace', 10: 'panic'}
 def describe(stage, clause): return CLAUSES.get(clause, 'clause %d' % clause)
